@@ -288,18 +288,41 @@ def isomap_leg(ctx, nsets, prop_sig):
             ctx.stat("isomap-end-to-end:" + ("identical-finite" if f.get("brute", "").endswith(":1") else "identical-observation-class"))
 
 
+def default_vantage_leg(ctx, binary, cases):
+    """the same harness built WITHOUT CUSTOM_UNIFORM_RANDOM_FUNCTION: the VP-tree draws its vantage points from its own
+    generator (next_vantage_fraction).  The model cannot replay that stream and need not: the sorted distance lists do
+    not depend on it, so the model comparison at that level and the oracle both apply."""
+    cs = []
+    for c in cases:
+        cc = dict(c)
+        cc["method"] = "vptree"
+        cc["dv"] = "1"      # marks the case as one for the default-vantage build (used by `check.py replay`)
+        cc.pop("vs", None)
+        cs.append(cc)
+    judge(ctx, binary, cs, "vptree-own-vantage-generator", brief=True)
+
+
 def correspond(ctx):
-    binary, log = ctx.build_harness("c02_knn.cpp", extra=common_flag())
+    from concurrent.futures import ThreadPoolExecutor
+    dv_flags = [f for f in vlib.HARNESS_FLAGS if f not in ("-O1", "-g")] + ["-O0", "-g1"]
+    with ThreadPoolExecutor(max_workers=2) as ex:
+        fut = ex.submit(ctx.build_harness, "c02_knn.cpp", "c02_knn_dv", common_flag() + ["-DKNN_DEFAULT_VANTAGE"], dv_flags)
+        binary, log = ctx.build_harness("c02_knn.cpp", extra=common_flag())
+        dv_binary, dv_log = fut.result()
     if not binary:
         ctx.broken("harness-build", "harness c02_knn.cpp", "harness does not compile against the repository: " + log[-1500:])
         return
+    if not dv_binary:
+        ctx.broken("harness-build:default-vantage", "harness c02_knn.cpp -DKNN_DEFAULT_VANTAGE",
+                   "harness does not compile against the repository: " + dv_log[-1500:])
     ctx.seen_sigs = set()
     r = ctx.rng
     quick = ctx.tier == "quick"
     # a replayed case runs alone
     rp = getattr(ctx, "replay", None)
     if rp and rp.get("case"):
-        judge(ctx, binary, [G.parse_line(rp["case"])[1]], "replay")
+        rc = G.parse_line(rp["case"])[1]
+        judge(ctx, dv_binary if (rc.get("dv") == "1" and dv_binary) else binary, [rc], "replay")
         return
     corpus = corpus_cases("C02", "knn")
     if corpus:
@@ -327,6 +350,17 @@ def correspond(ctx):
     for family, cs in batch.items():
         for i in range(0, len(cs), 600):
             judge(ctx, binary, cs[i:i + 600], family)
+    # the library's own vantage generator (second build), on a slice of the generated cases of every family
+    if dv_binary:
+        dv_cases = [cs[j] for cs in batch.values() for j in range(0, len(cs), 3)][: (400 if quick else 4000)]
+        default_vantage_leg(ctx, dv_binary, dv_cases)
+        dvv = []
+        for n in range(120 if quick else 1500):
+            rr = r.fork()
+            npts = rr.range(20, 60)
+            dvv.append({"cb": "plain", "metric": rr.choice(["L1", "Linf"]), "pts": G.pts_volume(rr, npts),
+                        "k": rr.choice([1, 2, 3, 5, 8])})
+        default_vantage_leg(ctx, dv_binary, dvv)
     # exhaustive k for small N
     small = []
     for n in range(24 if quick else 250):
